@@ -65,6 +65,8 @@ Definition out_code (r : outcome value) : Z := match r with Ok _ => 0 | Raise e 
 Definition scripted (r : outcome value) : body := fun _ _ => r.
 
 (* [model outcome; c03_args_bad; c03_result_bad; c04_call_ok; c04_result_ok; c05_positional; no_oneshot_iter;
+    no_iterator_consumed; result_intact; does the model hand the caller a result with fewer live iterators than the body returned;
+    c03_positional_bad;
     -3; model journal ...; -4; twin outcome; twin journal ...] *)
 Definition eval_call (mode : nat) (cl : list (nat * cls)) (f : fn) (c : call) (r : outcome value) : list Z :=
   let ctx := ctx_of cl in
@@ -72,7 +74,10 @@ Definition eval_call (mode : nat) (cl : list (nat * cls)) (f : fn) (c : call) (r
   let t := twin f c (scripted r) in
   [out_code (fst m);
    enc_b (c03_args_bad ctx f c); enc_b (c03_result_bad ctx f (match r with Ok v => v | Raise _ => VNone end));
-   enc_b (c04_call_ok ctx f c); enc_b (c04_result_ok ctx f r); enc_b (c05_positional f c); enc_b (no_oneshot_iter f c); -3]
+   enc_b (c04_call_ok ctx f c); enc_b (c04_result_ok ctx f r); enc_b (c05_positional f c); enc_b (no_oneshot_iter f c);
+   enc_b (no_iterator_consumed Gen.CheckerTables.checker_cfg f c); enc_b (result_intact Gen.CheckerTables.checker_cfg f r);
+   enc_b (match fst m, r with Ok v', Ok v => Nat.ltb (live v') (live v) | _, _ => false end);
+   enc_b (c03_positional_bad ctx f c); -3]
   ++ journal_code (snd m) ++ [-4; out_code (fst t)] ++ journal_code (snd t).
 
 (* ---------------- generator functions ---------------- *)
